@@ -356,12 +356,10 @@ Section Parser.
         | (Done, data, r') => (Done, t_set base (EFile (h_mode h) data) t, r')
         | (o, data, r') => (o, t_set base (EFile 420 data) t, r')
         end
-      else if h_type h =? T_DIR then
-        match t_get base t with
-        | Some (EFile _ _) => (Unsupported, t, r)
-        | _ => (Done, t_set base (EDir (h_mode h)) t, r)
-        end
-      else (Unsupported, t, r)
+      else
+        (* a directory here (dst an existing directory, src a directory) rebinds dst to dst/<base> for the
+           following members since /repo 1583bc4: outside the model (C22's configuration, never generated) *)
+        (Unsupported, t, r)
     else if isreg (h_type h) then
       (* extractfile + read loop, then chmod *)
       match rel_under base (h_name h) with
